@@ -37,7 +37,8 @@ Definition agree_parse (c : case_parse) : bool :=
       obs1_eqb (model_obs (render a)) o2 &&
       match parse_intf (render a) with
       | Ok b => eqb e (intf_eqb a b) &&
-                match h with Some hb => eqb hb (N.eqb (intf_hash a) (intf_hash b)) | None => true end
+                (* the property constrains only: equal objects hash equally *)
+                match h with Some hb => implb (intf_eqb a b) hb | None => true end
       | Raise _ => negb e
       end
   | _, _ => false
@@ -55,8 +56,8 @@ Definition agree_spec (c : case_spec) : bool :=
   str_eqb (render (intf_of_dict d)) canon &&
   obs1_eqb o1 (Some (d, canon)) && obs1_eqb o2 (Some (d, canon)) && e.
 
-(* ---- stream "order": two names; (lt, gt: 0 false / 1 true / 2 raised; eq; raw __hash__ when small) *)
-Definition case_order := (str * str * option (N * N * bool * option (N * N)))%type.
+(* ---- stream "order": two names; (lt, gt: 0 false / 1 true / 2 raised; eq; hash(a) == hash(b) when evaluated) *)
+Definition case_order := (str * str * option (N * N * bool * option bool))%type.
 Definition r2n (r : result bool) : N := match r with Ok true => 1 | Ok false => 0 | Raise _ => 2 end.
 Definition model_order (c : case_order) :=
   let '(s1, s2, _) := c in
@@ -69,7 +70,7 @@ Definition agree_order (c : case_order) : bool :=
   match parse_intf s1, parse_intf s2, o with
   | Ok a, Ok b, Some (l, g, e, h) =>
       N.eqb l (r2n (intf_lt a b)) && N.eqb g (r2n (intf_gt a b)) && eqb e (intf_eqb a b) &&
-      match h with Some (h1, h2) => N.eqb h1 (intf_hash a) && N.eqb h2 (intf_hash b) | None => true end
+      match h with Some hb => implb (intf_eqb a b) hb | None => true end
   | Ok _, Ok _, None => false
   | _, _, None => true
   | _, _, Some _ => false
